@@ -7,6 +7,8 @@ ARCHIVED = ("file", "dir", "symlink")
 
 def classify(r):
     """Stable class key of a rejected record (diagnosis only; the verdict is Fn_Dump!RecOK)."""
+    if r.get("noterm"):
+        return "dump/%s/does-not-terminate/connections=%d" % (r["fmt"], r["conns"])
     if r["fmt"] == "file":
         return "dump/file/content-differs" if not r["err"] else "dump/file/error"
     base = "dump/%s/" % r["fmt"]
@@ -52,7 +54,10 @@ def run(ctx):
             seen[key] += 1
             continue
         seen[key] = 1
-        if r["fmt"] == "file":
+        if r.get("noterm"):
+            what = "a single file with blobs %s" % r["content"] if r["fmt"] == "file" else "tree %d as %s" % (r["tree"], r["fmt"])
+            detail = "dump of %s with connections=%d (delay script %d) never returned: %s" % (what, r["conns"], r["delays"], r["err"])
+        elif r["fmt"] == "file":
             detail = "dump of a single file with blobs %s wrote blobs %s (err=%r, connections=%d)" % (r["content"], r["out"], r["err"], r["conns"])
         else:
             want = [r["prefix"] + "/".join(x["names"]) for x in sorted([x for x in r["nodes"] if x["t"] in ARCHIVED], key=lambda x: x["p"])]
@@ -66,5 +71,6 @@ def run(ctx):
     return verif.finish(ctx, "exploration", cov,
                         ["Fn_Dump.tla (tree order = lexicographic order of name-rank paths; one member per file/dir/symlink; name, type, permission and setuid/setgid/sticky bits, link target, content) is the oracle; TLC evaluates RecOK on every recorded dump",
                          "dumped bytes are mapped back to blob tokens by the driver (each blob is a self-delimiting byte string; anything else becomes token -1)",
-                         "blob loads are served by an in-memory loader that completes them after scripted virtual delays (testing/synctest), 1..5 connections",
+                         "blob loads are served by an in-memory loader that completes them after scripted virtual delays (testing/synctest), 1..5 connections (connections=1 is exercised for tar, zip and single files on every run)",
+                         "every dump runs under a watchdog: it counts as not terminating (RecOK false) when all its goroutines are blocked for good (the bubble's virtual clock reaches one hour; the delay scripts sum up to seconds) or when it has not returned after 45 s of real time",
                          "archives are parsed with archive/tar and archive/zip; timestamps, owners and xattrs are not part of the statement and not compared"])
